@@ -3,6 +3,7 @@ import VarmqVerif.Proofs.Res
 import VarmqVerif.Proofs.Config
 import VarmqVerif.Proofs.Trim
 import VarmqVerif.Proofs.Reap
+import VarmqVerif.Proofs.Cap
 /-!
   C18 — pool size tracks configuration; idle workers are trimmed; Stop leaks nothing (partial).
   Proved: per node exactly one goroutine will keep serving it while it is idle/held/in flight and
@@ -49,6 +50,18 @@ theorem tune_keeps_minimum {s s' : Trim.State} {m : Nat} (h : Trim.step false s 
     running pool with nobody out and no idle worker is reachable -/
 theorem old_shrink_can_empty_the_pool :
     ∃ s, Trim.Reach true s ∧ s.running = true ∧ (∀ g, s.busy g = false) ∧ s.idle = 0 := Trim.old_shrink_can_empty_the_pool
+
+/-- "The worker never keeps more worker goroutines than the largest concurrency configured" (model `Cap`: slots, workers out
+    with a job, idle workers, the order node-back-then-slot in the pool goroutine; with and without expiry): the number of worker
+    goroutines that exist never exceeds the largest limit so far -/
+theorem workers_le_limit {s : Cap.State} (h : Cap.Reach s) : Cap.alive s ≤ s.maxLim := Cap.workers_le_limit h
+
+/-- curProcessing is exactly the slots held by dispatchers + workers with a job + finished workers still holding theirs -/
+theorem slots_exact {s : Cap.State} (h : Cap.Reach s) : s.cur = s.hold + s.busy + s.rel := Cap.slots_exact h
+
+/-- a worker is created only while fewer than the largest limit exist -/
+theorem create_only_below_limit {s s' : Cap.State} (h : Cap.Reach s) (hc : Cap.step s .create = .ok s') :
+    Cap.alive s < s.maxLim := Cap.create_only_below_limit h hc
 
 /-! with an idle-worker expiry (model `Reap`: pool nodes by identity, any number of runs, reaper passes with a snapshot
     split at numMinIdleWorkers() ≥ 1, removal only by the reaper of the current run while its stop channel is open) -/
